@@ -27,67 +27,104 @@ variable {K : Type*} [Field K] [LinearOrder K] [IsStrictOrderedRing K] {n : ℕ}
 
 /-! ## `Point.origin_to`: the origin goes to the point -/
 
-/-- row 0 of `p.origin_to()` is the hyperboloid representative of `p` (a positive multiple of
-the stored vector) -/
+/-- row 0 of `p.origin_to()` is the hyperboloid representative of `p` on the upper sheet:
+`σ·x/√-⟨x,x⟩` with `σ = -1` iff the stored representative has negative time coordinate
+(repaired, C12: the isometry no longer depends on the sign of the representative) -/
 theorem originTo_row0 (hr : IsSqrt r) (x : Fin (n + 1) → K) (hx : mink x x < 0) :
-    originToRow0 r x = fun i => x i / r (-mink x x) := by
+    originToRow0 r x = fun i => sheetSign x * (x i / r (-mink x x)) := by
+  have hpos := hr.pos (neg_pos.2 hx)
   unfold originToRow0 gsRow0
-  rw [normalize_unit hr _ (by rw [mink_normalize_timelike hr x hx]; simp),
-    normalize_timelike hr x hx]
+  have hn := normalize_timelike hr x hx
+  have hs : sheetSign (normalize r x) = sheetSign x := by rw [hn]; exact sheetSign_div x _ hpos
+  have hu : upperSheet (normalize r x) = fun i => sheetSign x * (x i / r (-mink x x)) := by
+    unfold upperSheet; rw [hs, hn]
+  rw [normalize_unit hr _ (by
+    unfold upperSheet
+    rw [mink_upperSheet _ _ _ (sheetSign_mul_self _), mink_normalize_timelike hr x hx]; simp), hu]
 
 /-- `p.origin_to() @ Point.get_origin(n)` is `p`: for every matrix whose first row is the one
-`find_isometry` produces, `e₀·M` is a positive multiple of the stored vector of `p`, so it has
-the same Klein coordinates -/
+`find_isometry` produces, `e₀·M` is a non-zero multiple `σ/√-⟨x,x⟩` of the stored vector of `p`
+(the representative of `p` with non-negative time coordinate), so it has the same Klein
+coordinates -/
 theorem originTo_maps_origin (hr : IsSqrt r) (x : Fin (n + 1) → K) (hx : mink x x < 0)
     (M : Matrix (Fin (n + 1)) (Fin (n + 1)) K) (hM : M 0 = originToRow0 r x) :
-    (Pi.single 0 1 ᵥ* M = fun i => x i / r (-mink x x)) ∧ 0 < 1 / r (-mink x x) ∧
+    (Pi.single 0 1 ᵥ* M = fun i => sheetSign x * (x i / r (-mink x x))) ∧
+      0 < 1 / r (-mink x x) ∧ 0 ≤ (Pi.single 0 1 ᵥ* M) 0 ∧
       klein (Pi.single 0 1 ᵥ* M) = klein x := by
   have hpos := hr.pos (neg_pos.2 hx)
-  have h1 : Pi.single 0 1 ᵥ* M = fun i => x i / r (-mink x x) := by
+  have h1 : Pi.single 0 1 ᵥ* M = fun i => sheetSign x * (x i / r (-mink x x)) := by
     rw [single_one_vecMul]; show M 0 = _; rw [hM, originTo_row0 hr x hx]
-  refine ⟨h1, by positivity, ?_⟩
-  have hx0 : x 0 ≠ 0 := by
-    intro h0
-    have : mink x x = nsq (Fin.tail x) := by unfold mink nsq; rw [h0]; ring
-    linarith [nsq_nonneg (Fin.tail x)]
-  rw [h1]; funext i; unfold klein; field_simp
+  have hσ := sheetSign_ne_zero x
+  refine ⟨h1, by positivity, ?_, ?_⟩
+  · rw [h1]
+    show 0 ≤ sheetSign x * (x 0 / r (-mink x x))
+    have h0 := upperSheet_zero_nonneg x
+    unfold upperSheet at h0
+    have : sheetSign x * (x 0 / r (-mink x x)) = (sheetSign x * x 0) / r (-mink x x) := by ring
+    rw [this]; exact div_nonneg h0 hpos.le
+  · have hx0 : x 0 ≠ 0 := by
+      intro h0
+      have : mink x x = nsq (Fin.tail x) := by unfold mink nsq; rw [h0]; ring
+      linarith [nsq_nonneg (Fin.tail x)]
+    rw [h1]; funext i; unfold klein; field_simp
 
-/-! ## `TangentVector.origin_to`: the base tangent goes to a positive multiple -/
+/-! ## `TangentVector.origin_to`: the base tangent goes to the tangent vector
+
+A tangent vector is the class of a pair `(x, v)` under the simultaneous sign change
+`(x, v) ~ (-x, -v)`; "a positive multiple of it" means: the pair `(a·σx, b·σv)` with `a, b > 0`
+and one common sign `σ`. -/
 
 /-- rows 0 and 1 of `tv.origin_to()`: the normalised base point and the `.vector` of the
-tangent vector divided by its (positive) length -/
+tangent vector divided by its (positive) length, both multiplied by the one sign
+`σ = sheetSign p` that puts the base point on the upper sheet -/
 theorem tvOriginTo_rows (hr : IsSqrt r) (p v : Fin (n + 1) → K) (hp : mink p p < 0)
     (hv : 0 < mink (projHyp p v) (projHyp p v)) :
-    tvOriginToRow0 r p v = (fun i => p i / r (-mink p p)) ∧
+    tvOriginToRow0 r p v = (fun i => sheetSign p * (p i / r (-mink p p))) ∧
     tvOriginToRow1 r p v
-      = fun i => projHyp p v i / r (mink (projHyp p v) (projHyp p v)) := by
+      = fun i => sheetSign p * (projHyp p v i / r (mink (projHyp p v) (projHyp p v))) := by
   have hpos := hr.pos (neg_pos.2 hp)
+  have hn := normalize_timelike hr p hp
+  have hs : sheetSign (normalize r p) = sheetSign p := by rw [hn]; exact sheetSign_div p _ hpos
+  have hσ := sheetSign_mul_self p
   constructor
   · exact originTo_row0 hr p hp
   · unfold tvOriginToRow1 gsRow1
-    have horth : mink (normalize r (projHyp p v)) (normalize r p) = 0 := by
-      rw [normalize_spacelike hr _ hv, normalize_timelike hr p hp, mink_div_left,
+    rw [hs]
+    have hu : upperSheet (normalize r p) = fun i => sheetSign p * normalize r p i := by
+      unfold upperSheet; rw [hs]
+    have horth : mink (fun i => sheetSign p * normalize r (projHyp p v) i)
+        (upperSheet (normalize r p)) = 0 := by
+      rw [hu, mink_upperSheet _ _ _ hσ, normalize_spacelike hr _ hv, hn, mink_div_left,
         mink_div_right, mink_projHyp_base p v hp.ne]; simp
-    have e : (fun i => normalize r (projHyp p v) i
-        - mproj (normalize r (projHyp p v)) (normalize r p) i) = normalize r (projHyp p v) := by
+    have e : (fun i => sheetSign p * normalize r (projHyp p v) i
+        - mproj (fun i => sheetSign p * normalize r (projHyp p v) i)
+            (upperSheet (normalize r p)) i)
+        = fun i => sheetSign p * normalize r (projHyp p v) i := by
       funext i; simp [mproj, horth]
-    rw [e, normalize_unit hr _ (by rw [mink_normalize_spacelike hr _ hv]; simp),
+    rw [e, normalize_unit hr _ (by
+      rw [mink_upperSheet _ _ _ hσ, mink_normalize_spacelike hr _ hv]; simp),
       normalize_spacelike hr _ hv]
 
-/-- `tv.origin_to()` sends the base tangent vector (origin, direction `e₁`) to the base point
-of `tv` and to a **positive** multiple of its direction -/
+/-- `tv.origin_to()` sends the base tangent vector (origin, direction `e₁`) to the tangent
+vector `tv`: the image pair is `(σ·a·p, σ·b·w)` with `a, b > 0` and one common sign `σ`
+(`σ² = 1`), `w` the `.vector` of `tv` — the same class as `(p, w)`, base point to base point and
+direction to a positive multiple of the direction -/
 theorem tvOriginTo_maps_base (hr : IsSqrt r) (p v : Fin (n + 2) → K) (hp : mink p p < 0)
     (hv : 0 < mink (projHyp p v) (projHyp p v))
     (M : Matrix (Fin (n + 2)) (Fin (n + 2)) K)
     (h0 : M 0 = tvOriginToRow0 r p v) (h1 : M 1 = tvOriginToRow1 r p v) :
     klein (Pi.single 0 1 ᵥ* M) = klein p ∧
+    (Pi.single 0 1 ᵥ* M = fun i => sheetSign p * ((1 / r (-mink p p)) * p i)) ∧
     (Pi.single 1 1 ᵥ* M
-      = fun i => (1 / r (mink (projHyp p v) (projHyp p v))) * projHyp p v i) ∧
-    0 < 1 / r (mink (projHyp p v) (projHyp p v)) := by
+      = fun i => sheetSign p * ((1 / r (mink (projHyp p v) (projHyp p v))) * projHyp p v i)) ∧
+    0 < 1 / r (-mink p p) ∧ 0 < 1 / r (mink (projHyp p v) (projHyp p v)) ∧
+    sheetSign p * sheetSign p = 1 := by
   obtain ⟨e0, e1⟩ := tvOriginTo_rows hr p v hp hv
   have hpos := hr.pos hv
-  refine ⟨?_, ?_, by positivity⟩
-  · exact (originTo_maps_origin hr p hp M (by rw [h0]; rfl)).2.2
+  have hpos' := hr.pos (neg_pos.2 hp)
+  refine ⟨?_, ?_, ?_, by positivity, by positivity, sheetSign_mul_self p⟩
+  · exact (originTo_maps_origin hr p hp M (by rw [h0]; rfl)).2.2.2
+  · rw [single_one_vecMul]; show M 0 = _; rw [h0, e0]; funext i; field_simp
   · rw [single_one_vecMul]; show M 1 = _; rw [h1, e1]; funext i; field_simp
 
 /-- `tv.isometry_to(tv2) = tv2.origin_to() @ tv.origin_to().inv()` (row convention: the
@@ -139,13 +176,13 @@ theorem pointAlong_dist (hr : IsSqrt r) (ph vh : Fin (n + 1) → K) (ch sh : K)
 /-! ## `unit_tangent_towards` followed by `point_along d(p,q)` arrives at `q` -/
 
 /-- same-sheet core: for `⟨p,q⟩ < 0` the unit tangent at `p` built from `q - p`, followed for
-`cosh`-distance `ch = coshDist p q` (`sh = √(ch²-1) > 0`), reaches `q/(ch·√-⟨q,q⟩)` -/
+`cosh`-distance `ch = coshDist p q` (`sh = √(ch²-1) > 0`), reaches `σ·q/(ch·√-⟨q,q⟩)`, `σ` the sheet sign of `p` -/
 theorem towards_core (hr : IsSqrt r) (p q : Fin (n + 1) → K) (hp : mink p p < 0)
     (hq : mink q q < 0) (hpq : mink p q < 0) (sh : K) (hsh : 0 < sh)
     (hcs : coshDist r p q ^ 2 - sh ^ 2 = 1) :
     let u := tvNormalizedVec r p (fun i => q i - p i)
     pointAlong (tvOriginToRow0 r p u) (tvOriginToRow1 r p u) (sh / coshDist r p q)
-      = fun i => q i / (coshDist r p q * r (-mink q q)) := by
+      = fun i => sheetSign p * (q i / (coshDist r p q * r (-mink q q))) := by
   intro u
   have ha := hr.pos (neg_pos.2 hp)
   have hb := hr.pos (neg_pos.2 hq)
@@ -228,7 +265,8 @@ theorem pointAlong_towards (hr : IsSqrt r) (p q : Fin (n + 1) → K) (hp : mink 
       rw [coshDist_timelike hr _ _ hp hq', coshDist_timelike hr _ _ hp hq, e1, e2, abs_neg]
     have := towards_core hr p (fun i => -1 * q i) hp hq' hpq' sh hsh (by rw [hcd]; exact hcs)
     simp only at this
-    refine ⟨-1 / (coshDist r p q * r (-mink q q)), by
+    refine ⟨sheetSign p * (-1 / (coshDist r p q * r (-mink q q))), by
+      apply mul_ne_zero (sheetSign_ne_zero p)
       apply div_ne_zero (by norm_num); positivity, ?_⟩
     have hu : u = tvNormalizedVec r p (fun i => -1 * q i - p i) := by
       show unitTangentTowards r p q = _
@@ -239,7 +277,8 @@ theorem pointAlong_towards (hr : IsSqrt r) (p q : Fin (n + 1) → K) (hp : mink 
   · have hpq : mink p q < 0 := lt_of_le_of_ne (not_lt.1 hs) hne
     have := towards_core hr p q hp hq hpq sh hsh hcs
     simp only at this
-    refine ⟨1 / (coshDist r p q * r (-mink q q)), by positivity, ?_⟩
+    refine ⟨sheetSign p * (1 / (coshDist r p q * r (-mink q q))), by
+      apply mul_ne_zero (sheetSign_ne_zero p); positivity, ?_⟩
     have hu : u = tvNormalizedVec r p (fun i => q i - p i) := by
       show unitTangentTowards r p q = _
       unfold unitTangentTowards; simp [hs]
